@@ -53,6 +53,7 @@ def run(ctx, rep):
     rep.run(RI.rule_instantiate_type_by_evaluation, ctx, rep, "P11", part="purity")
     # P12: the sequence of instantiations does not depend on how the parameters are spelled (= C08 N11, by evaluation)
     rep.run(RI.rule_typedef_yields_one_instantiation, ctx, rep, "P12")
+    rep.run(RI.rule_listed_types_taken_entry_by_entry, ctx, rep, "P14")
     # P13: a parameter is replaced as a whole identifier, never as a piece of text inside other identifiers (= C02 S3)
     rep.run(RI.rule_whole_identifier, ctx, rep, "P13", exclude={"instantiate_name"})
     rep.run(RF.rule_locals_defined, ctx, rep, "U1", packages=("gtwrap/template_instantiator",), min_functions=3)
